@@ -413,13 +413,22 @@ def op_array(cx, view, base, inner, wit0):
     if 0 < b < node.n:
         forms.append((a, b, slice(a, b - node.n)))
     a, b, sl = rng.choice(forms)
-    vals = [elem_values(cx, node.elem) for _ in range(b - a)]
+    step = 1
+    if b - a >= 2 and rng.random() < 0.3:
+        # extended slice: every 2nd / 3rd element; the elements in between keep their bytes
+        step = rng.choice([2, 3])
+        sl = slice(sl.start, sl.stop, step)
+    idxs = list(range(a, b, step))
+    vals = [elem_values(cx, node.elem) for _ in idxs]
     cls = "open stop" if sl.stop is None else ("stop = len" if sl.stop == node.n else
                                                ("negative stop" if (sl.stop or 0) < 0 else "inner"))
     wit = dict(wit0, op="slice assignment", path=pstr(path), slice=repr(sl), array_len=node.n,
                elem=node.elem.descr(), extent=[addr + a * es, addr + b * es])
     rec.count("op:slice")
     rec.count("slice:" + cls)
+    if step != 1:
+        cls += ", step %d" % step
+        rec.count("slice:stepped")
     try:
         arr[sl] = [v for v, _ in vals]
     except Exception as exc:
@@ -430,7 +439,8 @@ def op_array(cx, view, base, inner, wit0):
                                                                      ", multi-byte elements")),
                  "%r for %s[%r] of length %d" % (exc, pstr(path), sl, node.n), wit)
         return
-    apply(cx, addr + a * es, b"".join(e for _, e in vals))
+    for i_, (_, e_) in zip(idxs, vals):
+        apply(cx, addr + i_ * es, e_)
     page_check(cx, "slice assignment %s[%r]" % (pstr(path), sl), "slice assignment", wit)
     try:
         got = [norm(x) for x in arr[sl]]
